@@ -85,6 +85,13 @@ func argCandidates(t reflect.Type, self reflect.Value, depth int) []reflect.Valu
 		out = append(out, reflect.Zero(t), reflect.New(t.Elem()))
 		if self.IsValid() && self.Type() == t {
 			out = append(out, self)
+			if !self.IsNil() && t.Elem().Kind() == reflect.Struct {
+				for _, h := range holedCopies(self.Elem()) {
+					p := reflect.New(t.Elem())
+					p.Elem().Set(h)
+					out = append(out, p)
+				}
+			}
 		}
 	case reflect.Struct:
 		out = append(out, reflect.Zero(t))
@@ -93,6 +100,7 @@ func argCandidates(t reflect.Type, self reflect.Value, depth int) []reflect.Valu
 		}
 		if self.IsValid() && self.Kind() == reflect.Ptr && self.Type().Elem() == t && !self.IsNil() {
 			out = append(out, self.Elem())
+			out = append(out, holedCopies(self.Elem())...)
 		}
 	case reflect.Interface, reflect.Map, reflect.Func, reflect.Chan:
 		out = append(out, reflect.Zero(t))
@@ -130,6 +138,30 @@ func margSubjects(root reflect.Value) []c18Subject {
 			box.Elem().Set(r)
 			out = append(out, c18Subject{"value:" + m.Name, box})
 		}()
+	}
+	return out
+}
+
+// holedCopies: copies of a structure that agree with it except that ONE exported pointer / slice / interface / map
+// field is nil — an "incomplete twin" of the receiver (what a reader returns with an error, or a value assembled
+// from exported fields), which passes the cheap comparisons a method makes first.
+func holedCopies(v reflect.Value) []reflect.Value {
+	var out []reflect.Value
+	if v.Kind() != reflect.Struct {
+		return nil
+	}
+	for i := 0; i < v.NumField() && len(out) < 6; i++ {
+		f := v.Type().Field(i)
+		if f.PkgPath != "" {
+			continue
+		}
+		switch f.Type.Kind() {
+		case reflect.Ptr, reflect.Slice, reflect.Interface, reflect.Map:
+			c := reflect.New(v.Type()).Elem()
+			c.Set(v)
+			c.Field(i).Set(reflect.Zero(f.Type))
+			out = append(out, c)
+		}
 	}
 	return out
 }
@@ -226,6 +258,18 @@ func init() {
 						}
 					}()
 					recv.Method(mm.idx).Call(args)
+					// … and whatever the call made of the value, its argument-free methods still return normally
+					// (a setter that accepted an argument it should have refused shows up here)
+					if _, ps := callAllMethods(fresh); len(ps) > 0 {
+						key := typeName(recv) + "." + mt.Name + "→" + strings.SplitN(ps[0], ":", 2)[0]
+						if _, seen := panics[key]; !seen {
+							var as []string
+							for _, v := range args {
+								as = append(as, trunc(fmt.Sprintf("%#v", v), 60))
+							}
+							panics[key] = fmt.Sprintf("after %s.%s(%s) returned normally, %s", typeName(recv), mt.Name, strings.Join(as, ", "), ps[0])
+						}
+					}
 				}()
 			}
 		}
